@@ -244,13 +244,15 @@ func plan(prop, tier string) []run {
 			return r
 		}
 	}
-	// the quick portfolio; the thorough tier runs the same configurations first, with four times the budget
+	// the quick portfolio; the thorough tier runs the same configurations first, with four times the budget. The budgets of
+	// the runs marked "exhaustive" are caps with a wide margin (such a run ends when its frontier empties, well before the
+	// cap on an idle machine): a loaded machine must not turn an exhaustive run into a depth-bounded one
 	mul := time.Duration(1)
 	if !q {
 		mul = 4
 	}
 	{
-		add("K1", "M1", 0, mul*25*time.Second)       // exhaustive (~4e5 states)
+		add("K1", "M1", 0, mul*60*time.Second)       // exhaustive (~4e5 states)
 		add("K2@v0e", "M2", 0, mul*15*time.Second)   // equivocating proposer, eager adversary, no timeouts: exhaustive
 		add("K3b@v0e", "M2", 0, mul*15*time.Second)  // weighted, two Byzantine members: exhaustive
 		add("K1@v1e", "M1", 0, mul*15*time.Second)   // eager PREPARE/COMMIT, one view change: exhaustive
@@ -262,39 +264,39 @@ func plan(prop, tier string) []run {
 		add("K1^2@v1", "M1", 0, mul*15*time.Second)  // two heights with a view change: exhaustive
 		add("K2", "M2", 0, mul*12*time.Second)
 		if prop == "C11" || prop == "C09" || !q {
-			add("K2@v1a", "M3T", 0, mul*25*time.Second) // correct leader of view 1 elected with an odd-typed (valid) proof: exhaustive
+			add("K2@v1a", "M3T", 0, mul*75*time.Second) // correct leader of view 1 elected with an odd-typed (valid) proof: exhaustive
 		}
 		add("K1", "MALL", 0, mul*15*time.Second)
 		add("K2", "MALL", 0, mul*15*time.Second)
 		add("K6", "M7", 0, mul*10*time.Second)
-		add("K6@v1a", "MO", 0, mul*20*time.Second) // Byzantine leader of view 1 pads its NEW_VIEW with an outsider's vote: exhaustive
-		add("K3b@v4a", "M1", 0, mul*20*time.Second) // two correct members of weights 3,4 (both needed), views up to 4: exhaustive (~2.6e5 states)
-		add("K3b@v2", "M3", 0, mul*10*time.Second)  // every vote variant of two Byzantine members for the correct leader of view 2: exhaustive
+		add("K6@v1a", "MO", 0, mul*60*time.Second) // Byzantine leader of view 1 pads its NEW_VIEW with an outsider's vote: exhaustive
+		add("K3b@v4a", "M1", 0, mul*60*time.Second) // two correct members of weights 3,4 (both needed), views up to 4: exhaustive (~2.6e5 states)
+		add("K3b@v2", "M3", 0, mul*30*time.Second)  // every vote variant of two Byzantine members for the correct leader of view 2: exhaustive
 		add("K10^2@v1", "M0", 0, mul*5*time.Second)   // weights 7,1,1,1: the first leader is a quorum by itself and decides inside its own proposal step: exhaustive
 		add("K10b^2@v1", "M0", 0, mul*5*time.Second)  // the same with the light members silent
 		add("K1@v1a", "M4F", 0, mul*10*time.Second)   // the same with a one-block alphabet (the forged NEW_VIEW re-proposes against a commit of view 0): exhaustive
-		add("K1@v1", "M4F", 0, mul*25*time.Second)    // Byzantine leader of view 1: NEW_VIEWs whose votes carry forged signatures: exhaustive
-		add("K1@v1", "M4H", 0, mul*10*time.Second)    // ... whose embedded PREPREPARE names another hash than the proven / attached block: exhaustive
+		add("K1@v1", "M4F", 0, mul*40*time.Second)    // Byzantine leader of view 1: NEW_VIEWs whose votes carry forged signatures: exhaustive
+		add("K1@v1", "M4H", 0, mul*30*time.Second)    // ... whose embedded PREPREPARE names another hash than the proven / attached block: exhaustive
 		add("K0@v0", "M0", -1, mul*5*time.Second)     // four correct members, every single-delivery order in view 0 (a COMMIT quorum can precede the proposal): exhaustive
 		if prop == "C11" || !q {
-			add("K0@v1", "M0", 0, mul*40*time.Second) // four correct members, one view change: exhaustive
+			add("K0@v1", "M0", 0, mul*80*time.Second) // four correct members, one view change: exhaustive
 		}
-		add("K0~r@v1", "M0", 0, mul*40*time.Second)   // four correct members, one view change, reverse flush order (COMMITs before PREPAREs before the proposal): exhaustive
-		add("K1~r", "M1", 0, mul*25*time.Second)      // the first configuration of this list under the reverse flush order
-		add("K10y@v2", "M0", 0, mul*10*time.Second)   // nobody Byzantine, only the heavy member's commit callback fails: light members that act on its first COMMIT are observed against the later views
+		add("K0~r@v1", "M0", 0, mul*80*time.Second)   // four correct members, one view change, reverse flush order (COMMITs before PREPAREs before the proposal): exhaustive
+		add("K1~r", "M1", 0, mul*60*time.Second)      // the first configuration of this list under the reverse flush order
+		add("K10y@v2", "M0", 0, mul*30*time.Second)   // nobody Byzantine, only the heavy member's commit callback fails: light members that act on its first COMMIT are observed against the later views
 		add("K10x@v2", "M1", 0, mul*15*time.Second)   // the same committee with commit callbacks that fail: the heavy member is prepared by its proposal alone, stays in the height and takes part in view changes
-		add("K1@v0a", "MCS", 0, mul*10*time.Second)  // Byzantine COMMITs that carry a correct member's random-seed share: exhaustive
-		add("K1@v1a", "MNC", 0, mul*10*time.Second) // the adversary's own messages signed over non-canonical header encodings: exhaustive
-		add("K3b@v1", "MNC", 0, mul*10*time.Second) // the same with two Byzantine members, weighted: exhaustive
-		add("K2@v1a", "MNC", 0, mul*25*time.Second) // the same from the proposer of view 0 (PREPREPARE, votes to the correct leader of view 1): exhaustive
+		add("K1@v0a", "MCS", 0, mul*30*time.Second)  // Byzantine COMMITs that carry a correct member's random-seed share: exhaustive
+		add("K1@v1a", "MNC", 0, mul*30*time.Second) // the adversary's own messages signed over non-canonical header encodings: exhaustive
+		add("K3b@v1", "MNC", 0, mul*30*time.Second) // the same with two Byzantine members, weighted: exhaustive
+		add("K2@v1a", "MNC", 0, mul*75*time.Second) // the same from the proposer of view 0 (PREPREPARE, votes to the correct leader of view 1): exhaustive
 		if prop == "C09" || prop == "C11" || prop == "C07" || !q {
-			add("K1@v2a", "MT", 0, mul*40*time.Second) // NEW_VIEW whose embedded proposal declares another message type, then a further view change: exhaustive (~1.5e6 states)
+			add("K1@v2a", "MT", 0, mul*100*time.Second) // NEW_VIEW whose embedded proposal declares another message type, then a further view change: exhaustive (~1.5e6 states)
 		}
 		if prop == "C07" || prop == "C09" || prop == "C01" || !q {
-			add("K1@v1a", "MP0", 0, mul*60*time.Second) // Byzantine leader of view 1: a valid NEW_VIEW to one member, then a NEW_VIEW whose quorum counts that member's PREPARE/COMMIT as its vote: exhaustive (~1.5e6 states)
+			add("K1@v1a", "MP0", 0, mul*120*time.Second) // Byzantine leader of view 1: a valid NEW_VIEW to one member, then a NEW_VIEW whose quorum counts that member's PREPARE/COMMIT as its vote: exhaustive (~1.5e6 states)
 		}
-		add("K1@v1a", "MB", 0, mul*25*time.Second)  // Byzantine leader of view 1 substitutes the (unsigned) block body of its NEW_VIEW: exhaustive
-		add("K3b@v4a", "ME", 0, mul*20*time.Second) // two Byzantine leaders, views up to 4: NEW_VIEW / vote locked on an empty-hash proof forged from VIEW_CHANGE signatures: exhaustive
+		add("K1@v1a", "MB", 0, mul*60*time.Second)  // Byzantine leader of view 1 substitutes the (unsigned) block body of its NEW_VIEW: exhaustive
+		add("K3b@v4a", "ME", 0, mul*60*time.Second) // two Byzantine leaders, views up to 4: NEW_VIEW / vote locked on an empty-hash proof forged from VIEW_CHANGE signatures: exhaustive
 	}
 	if q {
 		return r
